@@ -23,6 +23,15 @@ func init() { props["C20"] = checkC20 }
 //	permutation     p := Perm(E); … s[p[·]]                                                   E ≡ len(s)
 func checkC20(c *Ctx) {
 	c.Decides("GENCMD: each `generate` command calls the generator its name announces (uniformtree -> RandomUniformBinaryTree ...)")
+	c.Decides("REDRAW: in package tree and in the commands no while-style loop (a `for cond` that is not a plain counter) contains a call that reaches math/rand: a draw is never repeated until its result is accepted")
+	{
+		var fs []*FuncInfo
+		fs = append(fs, c.AllFuncs("tree", "cmd")...)
+		fs = append(fs, c.PkgLevelClosures("cmd")...)
+		nl, _ := c.redraw("REDRAW", fs, "every permutation / every subset has the same probability")
+		c.Extra["while_loops_scanned"] = nl
+	}
+	c.Floor("REDRAW", 4)
 	c.generatorCommands("GENCMD")
 	c.Decides("DRAW: every rand.Intn/Int31n/Int63n/Perm call site is classified (reservoir, reservoir with replacement, inside-out Fisher–Yates, uniform index pick, permutation) and its argument must be the unique range that makes the idiom unbiased: c+1 for the item at zero-based position c of a reservoir, the running count (incremented before the draw) for replacement sampling, i+1 for the shuffle, len(s) for a pick from s")
 	c.DoesNotDecide("the distribution of generated tree topologies or of anything computed after the draw; quality of math/rand itself; rand.Perm/Intn are trusted uniform")
